@@ -40,7 +40,12 @@ func probeFixes() string {
 		if err := lib.StoreOn(n.bc, b0); err != nil {
 			panic(fmt.Sprintf("probe: %v", err))
 		}
-		fdb.failAt = fdb.Commits() + 1
+		// fail the LAST commit the call makes (the batch), however many it makes
+		trial := NewFaultDB(store.Copy())
+		if err := lib.StoreOn(sc.open(trial), b1); err != nil {
+			panic(fmt.Sprintf("probe: %v", err))
+		}
+		fdb.failAt = fdb.Commits() + trial.Commits()
 		if err := lib.StoreOn(n.bc, b1); err == nil || !errors.Is(err, errInjected) {
 			panic(fmt.Sprintf("probe: expected the injected error, got %v", err))
 		}
